@@ -30,6 +30,7 @@ structure DUnit where
   hdrId : Nat := 0      -- identity of the sequence header's bytes
   majorVersion : Nat := 0
   profile : Nat := 0
+  pcm : Nat := 0        -- picture_coding_mode carried by this sequence header
   picNum : Nat := 0     -- picture_number (pictures and fragments)
   sliceCount : Nat := 0 -- fragment_slice_count
   fx : Nat := 0
@@ -37,7 +38,6 @@ structure DUnit where
   deriving Repr, Inhabited
 
 structure Config where
-  pcm : Nat             -- picture_coding_mode carried by the sequence headers
   slicesX : Nat
   slicesY : Nat
   levelPattern : Ast    -- the level's data-unit ordering pattern
@@ -175,7 +175,7 @@ def headerPayload (cfg : Config) (s : VState) (u : DUnit) : M VState := do
   let level ← levelInit cfg s.level
   guardRej (match s.lastHdr with | some h => h != u.hdrId | none => false) "SequenceHeaderChangedMidSequence"
   pure { s with majorVersion := some u.majorVersion, profile := some u.profile,
-                expectedVersion := some expected, level := some level, pcm := some cfg.pcm,
+                expectedVersion := some expected, level := some level, pcm := some u.pcm,
                 lastHdr := some u.hdrId }
 
 /-- `fragment_header` + `fragment_data` for a fragment that carries slices -/
